@@ -154,7 +154,6 @@ func parseClientHello(buf []byte) (*clientHello, error) {
 	if !s.ReadUint24LengthPrefixed(&ss) {
 		return nil, ErrDecodeError
 	}
-	zeros := s
 	s = ss
 
 	// https://datatracker.ietf.org/doc/html/rfc8446#section-4.1.2
@@ -232,13 +231,6 @@ func parseClientHello(buf []byte) (*clientHello, error) {
 	hello.trailing = s
 	if err := hello.parseExtensions(); err != nil {
 		return nil, err
-	}
-	if hello.echExt != nil && hello.echExt.Type == 1 {
-		for _, p := range zeros {
-			if p != 0 {
-				return nil, ErrIllegalParameter
-			}
-		}
 	}
 	return hello, nil
 }
